@@ -226,24 +226,29 @@ def w2(run, roles):
     # event
     from .c04 import find_event_yield
     evs = find_event_yield(V)
-    if len(evs) != 1:
+    if not evs:
         raise AnalysisError("W2: event yield of the primitive walker not found")
-    y, ev = evs[0]
-    args = list(ev.args)
-    ok = len(args) == 3 and norm(args[0]) == fn.args.args[1].arg and norm(args[1]) == t
-    run.ob("W2", ok, "event carries (path, declared type, value)", f"event is `{norm(ev)}`", module=mod, node=ev, func=fn.name,
-           construct="MarshalEvent args")
-    if len(args) == 3:
-        tv = V.resolve(args[2], y)
-        okv = isinstance(tv, ast.Call) and norm(tv.func) == t and len(tv.args) == 1 and \
-            isinstance(V.resolve(tv.args[0], y), ast.Call) and V.resolve(tv.args[0], y) is R["call"]
-        run.ob("W2", okv, "event value is tpm_type(<decoded integer>)", f"event value is `{norm(tv)}`", module=mod, node=ev,
-               func=fn.name, construct="MarshalEvent value")
+    args = []
+    for y, ev in evs:
+        args = list(ev.args)
+        ok = len(args) == 3 and norm(args[0]) == fn.args.args[1].arg and norm(args[1]) == t
+        run.ob("W2", ok, f"event at L{y.lineno} carries (path, declared type, value)", f"event is `{norm(ev)}`", module=mod, node=ev,
+               func=fn.name, construct="MarshalEvent args")
+        if len(args) == 3:
+            tv = V.resolve(args[2], y)
+            okv = isinstance(tv, ast.Call) and norm(tv.func) == t and len(tv.args) == 1 and \
+                isinstance(V.resolve(tv.args[0], y), ast.Call) and V.resolve(tv.args[0], y) is R["call"]
+            run.ob("W2", okv, f"event value at L{y.lineno} is tpm_type(<decoded integer>)",
+                   f"event value is `{norm(tv)}`: not the typed value (its class, text form and byte form are those of a plain int)",
+                   module=mod, node=ev, func=fn.name, construct="MarshalEvent value")
     # returns (size, typed value)
     rets = [s for s in walk_no_nested(fn) if isinstance(s, ast.Return)]
-    ok = len(rets) == 1 and isinstance(rets[0].value, ast.Tuple) and len(rets[0].value.elts) == 2 and \
-        len(args) == 3 and norm(rets[0].value.elts[1]) == norm(args[2])
-    run.ob("W2", ok, "returns (size, typed value)", f"returns `{norm(rets[0].value) if rets else None}`", module=mod,
+    tvn = None
+    for y, ev in evs:
+        if len(ev.args) == 3 and isinstance(V.resolve(ev.args[2], y), ast.Call) and norm(V.resolve(ev.args[2], y).func) == t:
+            tvn = norm(ev.args[2])
+    ok = bool(rets) and all(isinstance(r.value, ast.Tuple) and len(r.value.elts) == 2 and norm(r.value.elts[1]) == tvn for r in rets)
+    run.ob("W2", ok, "returns (size, typed value)", f"returns `{[norm(r.value) for r in rets]}`", module=mod,
            node=rets[0] if rets else fn, func=fn.name, construct="primitive return")
 
 
